@@ -191,7 +191,7 @@ impl Iterator for ManiaGradualDifficulty {
 
 impl ExactSizeIterator for ManiaGradualDifficulty {
     fn len(&self) -> usize {
-        self.diff_objects.len() + 1 - self.idx
+        self.diff_objects.len() + usize::from(!self.objects_is_circle.is_empty()) - self.idx
     }
 }
 
